@@ -12,6 +12,13 @@ sys.path.insert(0, HERE)
 import weave  # noqa: E402
 
 GROUPS = {
+    "prim_ser": {
+        "harnesses": ["ser_nat8", "ser_nat16", "ser_nat32", "ser_nat64", "ser_int8", "ser_int16", "ser_int32", "ser_int64", "ser_float32", "ser_float64"],
+        "args": ["--default-unwind", "10", "-j", "10", "--output-format=terse"],
+        "kind": "COMPLETE (full domain of each type; the only loops compare <= 8 bytes, unwinding assertions on)",
+        "what": "ser.rs serialize_num! expansions (macro + paste): serialize_<t>(v) appends exactly v.to_le_bytes() (floats by bit pattern)",
+        "file": "rust/candid/src/ser.rs", "fn": "serialize_num!",
+    },
     "bulk": {
         "harnesses": ["bulk_width_primitives", "bulk_width_wrappers_are_not_raw"],
         "kind": "COMPLETE for the listed types (loop-free harnesses, no unwinding bound)",
@@ -37,28 +44,42 @@ def run(pid, group):
     lock = os.path.join(weave.REPO, "Cargo.lock")
     if os.path.exists(lock):
         open(os.path.join(work, "Cargo.lock"), "w").write(open(lock).read())
-    cmd = ["cargo", "kani"]
+    cmd = ["cargo", "kani"] + g.get("args", [])
     for h in g["harnesses"]:
         cmd += ["--harness", h]
     env = dict(os.environ, CARGO_NET_OFFLINE="true", RUSTFLAGS="--cfg dfinity_candid_verif",
                CARGO_TARGET_DIR=os.path.join(outroot, "kani_target"))
     env.pop("RUSTUP_TOOLCHAIN", None)
     try:
-        p = subprocess.run(cmd, cwd=work, env=env, capture_output=True, text=True, timeout=1500)
+        p = subprocess.run(cmd, cwd=work, env=env, capture_output=True, text=True, timeout=3000)
     except subprocess.TimeoutExpired:
         return {"undecided": [f"kani twin `{group}`: timeout"], "failures": []}
     log = os.path.join(outroot, f"kani_{group}.log")
     open(log, "w").write(p.stdout + "\n" + p.stderr)
     text = p.stdout
     results = {}
-    for m in re.finditer(r"Checking harness ([\w:]+)\.\.\.(.*?)(?=Checking harness|\Z)", text, re.S):
-        name = m.group(1).split("::")[-1]
-        body = m.group(2)
-        if "VERIFICATION:- SUCCESSFUL" in body:
-            results[name] = ("ok", "")
-        elif "VERIFICATION:- FAILED" in body:
-            fails = re.findall(r"Failed Checks: (.*)", body)
-            results[name] = ("failed", "; ".join(fails)[:600])
+    lines = text.splitlines()
+    thread_h, cur_thread, cur_h = {}, None, None
+    for i, ln in enumerate(lines):
+        m = re.match(r"(?:Thread (\d+): )?Checking harness ([\w:]+)\.\.\.", ln)
+        if m:
+            cur_h = m.group(2).split("::")[-1]
+            if m.group(1) is not None:
+                thread_h[m.group(1)] = cur_h
+            continue
+        m = re.match(r"Thread (\d+):\s*$", ln)
+        if m:
+            cur_thread = m.group(1)
+            continue
+        if ln.startswith("VERIFICATION:-"):
+            h = thread_h.get(cur_thread) if cur_thread is not None else cur_h
+            if h:
+                if "SUCCESSFUL" in ln:
+                    results[h] = ("ok", "")
+                else:
+                    ctx = " ".join(x for x in lines[max(0, i - 12):i] if "Failed Checks" in x or "FAILURE" in x)
+                    results[h] = ("failed", ctx[:600])
+            cur_thread = None
     failures, undecided = [], []
     for h in g["harnesses"]:
         st = results.get(h)
